@@ -22,6 +22,10 @@ Model for C16: symbolic dimension expressions.
   Every recursive call spends one unit of fuel (fuel bounds the recursion depth); `parseTokens`
   starts with `5 * length + 8`, which `Props/C16.lean` proves is always enough.
 * `parseChars`: `parse_symbolic_expression` (286-313) including the `isidentifier` fast path.
+* `intFrag` / `evalInt`: the integer fragment (no true division, no power) with Python's integer
+  arithmetic (`Int.fdiv`, `Int.fmod`), the reference `eval` is proved equal to there.
+* `D`, `D.flatten`, `D.sem`: derivation trees of the documented grammar, the sentence a tree
+  derives and its standard meaning (the specification the parser is proved against).
 * `pp`: a printer with minimal parentheses into tokens, `render` tokens to characters.
 
 Core Lean only (linked into the `irdriver` executable).
